@@ -203,17 +203,27 @@ func init() {
 		}
 
 		// flag decoding in Engine.GetCosmeticResult: each flag independently
-		e := urlfilter.NewEngine(stringStorage("##.g\nexample.org##.s\n"))
+		e := urlfilter.NewEngine(stringStorage("##.g\nexample.org##.s\n~other.org##.g\n~example.org##.gx\n"))
+		// ascending, then descending on the same engine: a result must not depend on
+		// what was asked before
+		var optOrder []int
 		for o := 0; o < 64; o++ {
+			optOrder = append(optOrder, o)
+		}
+		for o := 63; o >= 0; o-- {
+			optOrder = append(optOrder, o)
+		}
+		for _, o := range optOrder {
 			opt := rules.CosmeticOption(o)
 			res := e.GetCosmeticResult("example.org", opt)
 			c.Run.Add("evaluations", 1)
 			css := opt&rules.CosmeticOptionCSS != 0
 			gen := opt&rules.CosmeticOptionGenericCSS != 0
 			wantG, wantS := css && gen, css
-			gotG := len(res.ElementHiding.Generic) == 1 && res.ElementHiding.Generic[0] == ".g"
-			gotS := len(res.ElementHiding.Specific) == 1 && res.ElementHiding.Specific[0] == ".s"
-			if gotG != wantG || gotS != wantS || (!wantG && len(res.ElementHiding.Generic) != 0) || (!wantS && len(res.ElementHiding.Specific) != 0) {
+			gs, ss := sortedSet(res.ElementHiding.Generic), sortedSet(res.ElementHiding.Specific)
+			gotG := len(gs) == 1 && gs[0] == ".g"
+			gotS := len(ss) == 1 && ss[0] == ".s"
+			if gotG != wantG || gotS != wantS || (!wantG && len(gs) != 0) || (!wantS && len(ss) != 0) {
 				c.Run.Violate(ev.Violation{Pred: "flag-decoding", Sig: map[string]any{"option": o},
 					What:   fmt.Sprintf("GetCosmeticResult(option=%06b): generic=%v specific=%v, expected generic present=%v specific present=%v", o, res.ElementHiding.Generic, res.ElementHiding.Specific, wantG, wantS),
 					Replay: map[string]any{"mods": []string{}}})
